@@ -226,6 +226,7 @@ def writer_tape(rep, F, fn, scale_term, rule='NUMERAL-SHAPE'):
         E = None
         zero_lit = False
         problems = []
+        unknown = []
         pending_E = None
         for callee, args in eff:
             c = TB._plain(callee)
@@ -251,7 +252,7 @@ def writer_tape(rep, F, fn, scale_term, rule='NUMERAL-SHAPE'):
                 if re.match(r'^0e[+]?0$', txt):
                     zero_lit = True
                     continue
-                problems.append('unexpected literal %r' % txt)
+                unknown.append('literal %r written' % txt)
                 continue
             p0 = norm(piece)
             if _callp(p0, r'Index::index$') and lit_text(p0[2][0]) is not None and set(lit_text(p0[2][0])) == {'0'}:
@@ -268,7 +269,7 @@ def writer_tape(rep, F, fn, scale_term, rule='NUMERAL-SHAPE'):
                 if a:
                     problems.append('the first digit piece does not start at the head of the digit string')
             elif r != root:
-                problems.append('pieces of two different strings are written')
+                unknown.append('pieces of two different strings are written')
                 continue
             elif add(a, pos, -1):
                 problems.append('digit pieces are not contiguous (a digit is dropped or repeated)')
@@ -280,6 +281,9 @@ def writer_tape(rep, F, fn, scale_term, rule='NUMERAL-SHAPE'):
                 after = add(after, ln)
             else:
                 kbefore = add(kbefore, ln)
+        if unknown:
+            verdicts.setdefault('other', []).append(('undecided', unknown[0]))
+            continue
         if zero_lit and root is None:
             verdicts.setdefault('zero', []).append(('ok', 'zero is written as the literal 0e0'))
             continue
@@ -307,8 +311,11 @@ def writer_tape(rep, F, fn, scale_term, rule='NUMERAL-SHAPE'):
         key = '%s:point-and-exponent[%s]' % (fn.key, cell)
         cnt += 1
         bad = [v for v in vs if v[0] == 'violation']
+        und = [v for v in vs if v[0] == 'undecided']
         if bad:
             rep.violation(rule, key, bad[0][1], fn.where())
+        elif und:
+            rep.undecided(rule, key, und[0][1], fn.where())
         else:
             rep.ok(rule, key, '%d path(s): %s' % (len(vs), vs[0][1]), fn.where())
     return cnt
